@@ -664,7 +664,12 @@ def evaluate_payload_template(input, context, template):
             )
         func, args = intrinsic.split("(", 1)
         func = func.strip()
-        normalised_func = func.replace("States.", "asl_intrinsic_")
+        if func.startswith("States."):
+            normalised_func = "asl_intrinsic_" + func[len("States."):]
+        else:
+            # Only States.<name> is an intrinsic function, anything else must
+            # not be looked up amongst the local functions below.
+            normalised_func = "asl_intrinsic_Default"
         # Extract raw args string
         args = args.rsplit(")", 1)[0]
 
